@@ -43,7 +43,7 @@ func robustOps(s *scenario, truthful bool) {
 	} else if err != nil {
 		rt.Reach("verify-error")
 	}
-	checkRepair(s, rt.Bool("doubleCheck"), 1)
+	checkRepairMode(s, rt.Bool("doubleCheck"), 1, truthful)
 }
 
 func smallArchive() *scenario {
